@@ -1,17 +1,17 @@
 #!/bin/sh
 # Rebuilds the engine-safety development (proofs/EngineSafety*.v) in dependency order.
-# Run from /verif/coq after RModel/Engine.vo has been (re)built.
+# Run after RModel/Engine.vo has been (re)built.  EngineSafetyRestartLock.v also needs the
+# refinement files proofs/EngineRefineSpec, EngineRefineSmallCodes, EngineRefineSmallClc and
+# EngineRefineHeaderClc (and Spec/Huffman, Spec/Inflate) to be compiled.
 set -e
 cd "$(dirname "$0")/.."
-for f in Base Bits Buf Inv Small RL Expand Decode LitLen Suffix Header; do
+for f in Base Bits Buf Inv Small RL Expand Decode LitLen Suffix Header \
+         RestartBits RestartMono RestartLock Restart RestartCex \
+         LongFitDefs LongFitBits LongFitCodes LongFitLoop LongFitDP LongFit; do
   echo "coqc proofs/EngineSafety$f.v"
   timeout 3600 coqc -Q . Verif proofs/EngineSafety$f.v
 done
-for f in Restart LongFit; do
-  if [ -f proofs/EngineSafety$f.v ]; then
-    echo "coqc proofs/EngineSafety$f.v"
-    timeout 7200 coqc -Q . Verif proofs/EngineSafety$f.v
-  fi
-done
 echo "coqc proofs/EngineSafety.v"
 timeout 3600 coqc -Q . Verif proofs/EngineSafety.v
+echo "coqc proofs/EngineSafetyFinal.v"
+timeout 3600 coqc -Q . Verif proofs/EngineSafetyFinal.v
